@@ -39,7 +39,9 @@ func main() {
 		if len(os.Args) != 4 {
 			usage()
 		}
-		os.Exit(orchestrate(os.Args[2], os.Args[3]))
+		rc := orchestrate(os.Args[2], os.Args[3])
+		removeOwnCopy()
+		os.Exit(rc)
 	case "worker":
 		if len(os.Args) != 8 {
 			usage()
@@ -49,11 +51,28 @@ func main() {
 		if len(os.Args) != 4 {
 			usage()
 		}
-		os.Exit(replay(os.Args[2], os.Args[3], true))
+		// scratch files of a replay live in a directory of their own, removed on exit
+		sc, err := os.MkdirTemp(filepath.Join(root, ".run"), "replay-")
+		if err != nil {
+			os.MkdirAll(filepath.Join(root, ".run"), 0o755)
+			sc, _ = os.MkdirTemp(filepath.Join(root, ".run"), "replay-")
+		}
+		os.Setenv("VERIF_RUNDIR", sc)
+		rc := replay(os.Args[2], os.Args[3], true)
+		os.RemoveAll(sc)
+		removeOwnCopy()
+		os.Exit(rc)
 	case "list":
 		fmt.Println(strings.Join(core.IDs(), " "))
 	default:
 		usage()
+	}
+}
+
+// removeOwnCopy deletes the per-run copy of the binary made by ./check (<name>.run.<pid>).
+func removeOwnCopy() {
+	if self, err := os.Executable(); err == nil && strings.HasSuffix(self, fmt.Sprintf(".run.%d", os.Getpid())) {
+		os.Remove(self)
 	}
 }
 
@@ -249,9 +268,21 @@ func orchestrate(id, tier string) int {
 		return 64
 	}
 	sd := seed()
-	dir := filepath.Join(root, ".run", id)
+	// every run owns its scratch directory, so that checks may run concurrently (also two
+	// tiers of the same property); directories left by runs whose process is gone are removed
+	dir := filepath.Join(root, ".run", fmt.Sprintf("%s.%s.%d", id, tier, os.Getpid()))
+	os.RemoveAll(filepath.Join(root, ".run", id))
+	if old, _ := filepath.Glob(filepath.Join(root, ".run", "*.*.*")); old != nil {
+		for _, o := range old {
+			parts := strings.Split(filepath.Base(o), ".")
+			if _, err := os.Stat("/proc/" + parts[len(parts)-1]); err != nil {
+				os.RemoveAll(o)
+			}
+		}
+	}
 	os.RemoveAll(dir)
-	defer os.RemoveAll(filepath.Join(root, ".run", "histfiles"))
+	os.Setenv("VERIF_RUNDIR", dir)
+	defer func() { os.RemoveAll(filepath.Join(dir, "histfiles")) }()
 	if err := os.MkdirAll(dir, 0o755); err != nil {
 		fmt.Fprintln(os.Stderr, err)
 		return 70
